@@ -493,7 +493,13 @@ class Monomial:
                     sqrt_factors.remove(tmp)
                     tmp = (-tmp[0], tmp[1])
                     sqrt_factors.insert(0, tmp)
-                    return Monomial(1, sqrt_factors, self.conds)
+                    first_e = self.factors[0][1]
+                    if first_e.is_fraction() and first_e.get_fraction() % 2 == 0:
+                        # The first factor left the root as an absolute value
+                        return Monomial(1, sqrt_factors, self.conds)
+                    # The sign moved under the root of the first factor, the
+                    # absolute value of the coefficient is taken out
+                    return Monomial((-self.coeff) ** exp, sqrt_factors, self.conds)
             return Monomial(self.coeff ** exp, sqrt_factors, self.conds)
 
         else:
